@@ -14,9 +14,9 @@ import (
 
 // StreamSpec is one stream of a case.
 type StreamSpec struct {
-	ClientBlocked bool `json:"client_blocked"` // a client goroutine is blocked in ReadMessage at the event
-	Warm          int  `json:"warm"`           // echo rounds before the event
-	InFlight      bool `json:"in_flight"`      // a client message is written right before the event, its echo not awaited
+	ClientBlocked bool `json:"client_blocked"`      // a client goroutine is blocked in ReadMessage at the event
+	Warm          int  `json:"warm"`                // echo rounds before the event
+	InFlight      bool `json:"in_flight"`           // a client message is written right before the event, its echo not awaited
 	BadWrite      bool `json:"bad_write,omitempty"` // before the event the client writes a value the body codec cannot encode (the write fails)
 }
 
@@ -25,7 +25,7 @@ type Case struct {
 	M       kit.Modes    `json:"modes"`
 	Streams []StreamSpec `json:"streams"`
 	Unary   bool         `json:"unary"`  // a unary call is executing (gated) at the event
-	Event   string       `json:"event"`  // sclose | cclose | peerclose | cut | srvclose
+	Event   string       `json:"event"`  // sclose | cclose | peerclose | cut | srvclose | rawdrop
 	Target  int          `json:"target"` // sclose: which stream
 	CutErr  string       `json:"cut_err,omitempty"`
 }
@@ -33,7 +33,7 @@ type Case struct {
 var events = map[string][]string{
 	"frame": {"sclose", "cclose", "peerclose"},
 	"bytes": {"sclose", "cclose", "peerclose", "cut", "srvclose"},
-	"unix":  {"sclose", "cclose", "srvclose"},
+	"unix":  {"sclose", "cclose", "srvclose", "rawdrop", "rawdrop"},
 }
 
 func genModes(t *rapid.T) kit.Modes {
@@ -84,6 +84,17 @@ func enum(tier string, yield func(Case)) {
 						c := Case{M: kit.Modes{Enc: "default", Link: l.link, Poll: l.poll, SrvDirect: direct, CliDirect: direct, SrvPipelining: pipe}, Event: ev, Target: 0}
 						c.Streams = []StreamSpec{{ClientBlocked: pat != 1, Warm: 1, InFlight: pat == 2, BadWrite: pat == 3}, {ClientBlocked: pat == 1, Warm: 0}}
 						c.Unary = !pipe
+						if ev == "rawdrop" {
+							if pat >= 2 {
+								continue
+							}
+							c.Streams = c.Streams[:1+pat]
+							for _, u := range []bool{false, true} {
+								c.Unary = u && !pipe
+								yield(c)
+							}
+							continue
+						}
 						if ev == "cut" {
 							for _, ce := range []string{"eof", "io"} {
 								c.CutErr = ce
@@ -134,6 +145,9 @@ func run(c Case) kit.Outcome {
 		}
 	}
 	sig := fmt.Sprintf("link=%s poll=%v event=%s pipe=%v direct=%v", c.M.Link, c.M.Poll, c.Event, c.M.SrvPipelining, c.M.SrvDirect)
+	if c.Event == "rawdrop" {
+		return runRawDrop(c, sig)
+	}
 	s, err := kit.NewSession(c.M)
 	if err != nil {
 		return kit.Undecided("%v", err)
@@ -424,6 +438,109 @@ func run(c Case) kit.Outcome {
 		out.Classes = append(out.Classes, "failed-stream-write-before-event")
 	}
 	return out
+}
+
+// runRawDrop: a scripted client over a real unix socket (poll-mode server or not) writes the
+// open frames of 1-3 streams - optionally while a unary call of the same connection is executing -
+// and disconnects in the same breath, before any acknowledgement. Whatever stream handler the
+// server starts for those frames must come back from its blocked Read: the connection is gone.
+func runRawDrop(c Case, sig string) kit.Outcome {
+	if c.M.Link != "unix" {
+		return kit.Outcome{Invalid: true}
+	}
+	s, err := kit.NewSession(c.M)
+	if err != nil {
+		return kit.Undecided("%v", err)
+	}
+	defer s.Close()
+	rounds := 12
+	for r := 0; r < rounds; r++ {
+		if o := rawDropRound(s, c, sig, r); o.Violation != "" || o.Undecided != "" {
+			return o
+		}
+	}
+	out := kit.Outcome{Nontrivial: true, Sig: sig, Classes: []string{"event=rawdrop", "link=unix"}, Counters: map[string]int{"rawdrop_rounds": rounds}}
+	if c.M.Poll {
+		out.Classes = append(out.Classes, "poll")
+	}
+	if c.Unary {
+		out.Classes = append(out.Classes, "unary-executing-at-event")
+	}
+	return out
+}
+
+func rawDropRound(s *kit.Session, c Case, sig string, round int) kit.Outcome {
+	for i := range c.Streams {
+		s.Env.SetStreamPlan(i, kit.StreamPlan{Behaviour: "echo", Reads: -1})
+	}
+	rc, err := kit.DialRaw("unix", s.Addr)
+	if err != nil {
+		return kit.Undecided("dial: %v", err)
+	}
+	cli := kit.NewScriptClientOn(rc, c.M.Enc, s.Env.Tick)
+	seq := uint64(0)
+	gateID := uint64(9000 + round)
+	if c.Unary {
+		args := kit.MakePayload(gateID, kit.DirGate, 5, 64)
+		if err := cli.Send(kit.ReqHeader{Seq: seq, Method: "S.Echo", Args: args}); err != nil {
+			return kit.Undecided("send: %v", err)
+		}
+		seq++
+		if !s.Env.WaitStartedIDs([]uint64{gateID}, bound) {
+			return kit.Undecided("gated unary call did not start")
+		}
+	}
+	var hdrs []kit.ReqHeader
+	for i := range c.Streams {
+		hdrs = append(hdrs, kit.ReqHeader{Seq: seq, Method: fmt.Sprintf("S.Stream%d", i), Upgrade: []byte{kit.RefUpgrade(true, true, false, kit.StreamOpen)}})
+		seq++
+	}
+	if err := cli.SendBatch(hdrs); err != nil {
+		return kit.Undecided("send: %v", err)
+	}
+	if round%3 == 2 {
+		time.Sleep(time.Duration(round*40) * time.Microsecond)
+	}
+	cli.Close() // gone before any acknowledgement was read
+	evAt := time.Now()
+	// every handler that was started comes back; the unary handler is still gated meanwhile
+	time.Sleep(5 * time.Millisecond)
+	dl := time.Now().Add(bound)
+	for i := range c.Streams {
+		for {
+			rec := s.Env.StreamSlot(i)
+			if rec.Started == 0 || rec.Exited {
+				break
+			}
+			if time.Now().After(dl) {
+				o := timing("handler-stays-blocked", "round %d: the client wrote the open frames of %d streams and disconnected at once; the handler of stream %d was started and was still blocked in Read %v later (poll=%v, unary handler gated: %v)", round, len(c.Streams), i, time.Since(evAt).Round(time.Millisecond), c.M.Poll, c.Unary)
+				o.Sig = sig
+				return o
+			}
+			time.Sleep(200 * time.Microsecond)
+		}
+	}
+	if c.Unary {
+		s.Env.Open(gateID)
+	}
+	// a handler may also be started late (its open frame was still queued at the disconnect)
+	time.Sleep(3 * time.Millisecond)
+	dl = time.Now().Add(bound)
+	for i := range c.Streams {
+		for {
+			rec := s.Env.StreamSlot(i)
+			if rec.Started == 0 || rec.Exited {
+				break
+			}
+			if time.Now().After(dl) {
+				o := timing("handler-stays-blocked", "round %d: the client wrote the open frames of %d streams and disconnected at once; the handler of stream %d, started after the disconnect, was still blocked in Read %v later (poll=%v, unary: %v)", round, len(c.Streams), i, time.Since(evAt).Round(time.Millisecond), c.M.Poll, c.Unary)
+				o.Sig = sig
+				return o
+			}
+			time.Sleep(200 * time.Microsecond)
+		}
+	}
+	return kit.Outcome{}
 }
 
 var prop = kit.Property[Case]{
